@@ -5,12 +5,16 @@ Model: `DarsiaModel.Heap` (heap of cells; `Image` = record of references; every 
 the reads / allocations / writes of the anchored code after the `fix:` commits). The `__mul__` type
 guard is `DarsiaGen.MulGuard`, tabulated from the running code on every check (G1).
 
-Modelled calls: constructor (incl. `dimensions=` + `height/width/depth`), `copy`, `+`, `-`, `* scalar`,
-`< > == <= >=` (image or number), `astype`, `time_slice`, `time_interval`, `subregion`, `weight`
-(number / image weight, resized), `stack`; plus the documented in-place `append`.
-The wider registry of the property (resize, superpose, reduce_axis, EMD, ...) is observed by the oracle only.
+Modelled calls (23): constructor (incl. `dimensions=` + `height/width/depth`), `copy`, `+`, `-`, `* scalar`,
+`< > == <= >=` (image or number), `astype(<numpy type>)`, `astype(<Image class>)`, `img_as` / `to_trichromatic(..,
+return_image=True)` / `ClipModel(image)` / `TVD(image)` (copy + rebind), `to_monochromatic`, `time_slice`,
+`time_interval`, `subregion`, `weight` (number / image weight, resized), `stack`, `resize` / `uniform_refinement` /
+`zeros_like` (`type(a)(new, **a.metadata())`), `reduce_axis`, `extrude_along_axis`, `superpose`, read-only
+measurements (`Geometry.integrate`, `EMD`), model calls on raw arrays; plus the in-place operations `append`,
+in-place `to_trichromatic` / attribute rebinding and `img.img[...] = v`.
+New arrays computed by numpy / cv2 / skimage are parameters of the model (their *values* are outside it).
 -/
-import DarsiaProofs.Heap
+import DarsiaProofs.HeapShare
 import DarsiaGen.MulGuard
 namespace Darsia.C17
 open Darsia Darsia.Heap
@@ -57,15 +61,53 @@ theorem stack_preserves_images (h h' : Heap) (l r : Nat) (wf : WF h)
   all_goals first | contradiction | skip
   cases hs; omega
 
-/-- The documented in-place operation `self.append(image)` writes only the object `self` and the
-`date` / `time` lists of `self` (in-place `list.append`); everything else, in particular `image`
-when it shares no list with `self`, is unchanged. -/
+/-- The documented in-place operation `self.append(image)` writes only the object `self` (its attributes are
+rebound to a new stacked array and NEW date / time lists); every other object, in particular `image` and any
+list `self` shared with other images, is unchanged. -/
 theorem append_writes_only_self (h h1 : Heap) (s i : Nat) (off : Option Rat)
     (ha : Heap.append h s i off = .ok h1) :
-    ∃ rs, getImg h s = .ok rs ∧
-      ∀ a, a < h.length → a ≠ s → a ≠ rs.date → a ≠ rs.time → h1[a]? = h[a]? := by
-  obtain ⟨rs, _, g, _, _, _, _, f⟩ := append_spec ha
-  exact ⟨rs, g, f⟩
+    h.length ≤ h1.length ∧ ∀ a, a < h.length → a ≠ s → h1[a]? = h[a]? :=
+  append_frame_self ha
+
+/-- **The result is fresh, or a documented view**: the returned object is new, and every object reachable from
+it is either allocated by the call or reachable — already before the call — from one of the documented shared
+cells `op.shared h` (the pixel buffer for `time_slice` / `time_interval` / `subregion`; the `date` / `time`
+objects handed on by `metadata()`; what the constructor is given). For `copy`, `*`, `astype`, `img_as`,
+`to_trichromatic`, `to_monochromatic`, `weight`, `stack`, model calls the shared set is empty. -/
+theorem result_fresh_or_documented_view (h h' : Heap) (op : Op) (r : Nat) (wf : WF h)
+    (hs : step Gen.mulGuard h op = .ok (h', r)) :
+    h.length ≤ r ∧ ∀ b, Reach h' r b → h.length ≤ b ∨ ∃ s ∈ op.shared h, s < h.length ∧ Reach h s b := by
+  obtain ⟨hr, ff⟩ := step_fresh _ h h' op r hs
+  exact ⟨hr, fun b rb => reach_fresh wf (step_frame _ h h' op r hs) ff rb (Or.inl hr)⟩
+
+/-- the calls documented to return a *new* image share no pixel buffer: what they share is empty or consists of
+date / time objects only -/
+theorem copy_ops_share_no_pixels (h : Heap) (op : Op) (ty : Typed h) (hc : op.returnsCopy = true) :
+    ∀ s ∈ op.shared h, ∃ v, h[s]? = some v ∧ v.isT = true :=
+  fun _ hs => shared_copy_isT ty op hc hs
+
+/-- **Later writes through a result.** `result.img[...] = values` after any modelled call (other than the
+constructor, which wraps the array it is given) can change, among the objects that existed before the call,
+only cells of `op.shared h` ... -/
+theorem write_result_touches_only_shared (h h' h2 : Heap) (op : Op) (r : Nat) (vals : List Rat) (ty : Typed h)
+    (hnc : ∀ c, op ≠ .ctor c) (hs : step Gen.mulGuard h op = .ok (h', r)) (hw : writePixels h' r vals = .ok h2) :
+    h.length ≤ h2.length ∧ ∀ c, c < h.length → c ∉ op.shared h → h2[c]? = h[c]? :=
+  Heap.write_result_touches_only_shared _ h h' h2 op r vals ty hnc hs hw
+
+/-- ... and for every call documented to return a new image it changes none of them: no later pixel write to the
+result can reach an argument. -/
+theorem write_result_isolated (h h' h2 : Heap) (op : Op) (r : Nat) (vals : List Rat) (ty : Typed h)
+    (hcopy : op.returnsCopy = true) (hs : step Gen.mulGuard h op = .ok (h', r))
+    (hw : writePixels h' r vals = .ok h2) : Frame h h2 :=
+  Heap.write_result_isolated _ h h' h2 op r vals ty hcopy hs hw
+
+/-- In-place DarSIA operations applied to a result afterwards (`result.append(x)`, in-place `to_trichromatic`,
+`result.img = new`) never reach an argument — for every modelled call, view-returning ones included. -/
+theorem inplace_on_result_isolated (h h' h2 : Heap) (op : Op) (r : Nat)
+    (hs : step Gen.mulGuard h op = .ok (h', r)) :
+    (∀ i off, Heap.append h' r i off = .ok h2 → Frame h h2) ∧
+    (∀ sh vals, rebindImg h' r sh vals = .ok h2 → Frame h h2) :=
+  Heap.inplace_on_result_isolated _ h h' h2 op r hs
 
 /-- Image arithmetic is element-wise arithmetic on the raw arrays (same shape required), and the
 operands read the same afterwards. -/
@@ -120,6 +162,13 @@ example : okAnd (fun p => getNums p.1 1 == .ok [1, 2] && (getImg p.1 p.2).toOpti
       arr := 0, spaceDim := 2, dims := some 1, height := some 7, width := none,
       depth := none, origin := none, defOrigin := [0, 7], series := false, scalar := true, date := none,
       refDate := none, time := none })) = true := by decide +kernel
+
+/-- a pixel write through the result of `subregion` does reach the argument's buffer (documented view), through
+the result of `copy` it does not -/
+example : okAnd (fun p => okAnd (fun h2 => h2[0]? != demo[0]?) (writePixels p.1 p.2 [9, 9]))
+    (step Gen.mulGuard demo (.subregion 5 [(0, 1), (0, 2)] [1, 2] [0, 1])) = true := by decide +kernel
+example : okAnd (fun p => okAnd (fun h2 => h2[0]? == demo[0]?) (writePixels p.1 p.2 [9, 9, 9, 9]))
+    (step Gen.mulGuard demo (.copy 5)) = true := by decide +kernel
 
 /-- ... whereas the code *before* the `fix:` commits does not have the frame property: the constructor
 wrote `height` into the caller's list, `stack` turned `images[0]` into a series, `weight` rebound
